@@ -414,8 +414,8 @@ func checkPrivateCopy(f *failer, r *vh.Run) {
 		s = s[i+1:]
 		return s[strings.Index(s, "\n")+1:], nil
 	}
-	a, err1 := body("/repo/pkg/kbin/primitives.go")
-	b, err2 := body("/repo/pkg/kmsg/internal/kbin/primitives.go")
+	a, err1 := body(vh.Repo() + "/pkg/kbin/primitives.go")
+	b, err2 := body(vh.Repo() + "/pkg/kmsg/internal/kbin/primitives.go")
 	if err1 != nil || err2 != nil {
 		r.Inconclusive(fmt.Sprintf("cannot read primitives sources: %v %v", err1, err2))
 		return
